@@ -109,9 +109,25 @@ with rd_list (f : nat) (toks : list token) : option (sx * list token) :=
       match r with
       | t :: r2 =>
         if is_ty t_space t then
-          match rd_list f' r2 with
-          | Some (d, r3) => Some (XCons a d, r3)
-          | None => None
+          match r2 with
+          | t2 :: r3 =>
+            if is_ty t_dot t2 then                         (* ContinueList : SExpr space "." space SExpr *)
+              match r3 with
+              | t3 :: r4 =>
+                if is_ty t_space t3 then
+                  match rd_sexpr f' r4 with
+                  | Some (d, r5) => Some (XCons a d, r5)
+                  | None => None
+                  end
+                else None
+              | [] => None
+              end
+            else
+              match rd_list f' r2 with
+              | Some (d, r3') => Some (XCons a d, r3')
+              | None => None
+              end
+          | [] => None
           end
         else Some (XCons a XNil, r)
       | [] => Some (XCons a XNil, [])
